@@ -143,10 +143,11 @@ var sgRoutes = []string{"eth-legacy", "eth-accesslist", "eth-dynamicfee", "cosmo
 
 // ---------------------------------------------------------------- environment
 type sgWorld struct {
-	App    *app.Haqq
-	Ante   sdk.AnteHandler
-	TxCfg  client.TxConfig
-	Signer ethtypes.Signer
+	App     *app.Haqq
+	Ante    sdk.AnteHandler
+	TxCfg   client.TxConfig
+	Signer  ethtypes.Signer
+	ZeroFee bool // the case runs in the zero-fee regime: every transaction offers gas price 0
 }
 
 // sgAnte builds the ante handler the way app.setAnteHandler does.
@@ -476,7 +477,9 @@ func sgEthMutants(r *Rng, tx *ethtypes.Transaction, other common.Address) []sgMu
 		fee := new(big.Int).Mul(tx.GasPrice(), new(big.Int).SetUint64(tx.Gas()))
 		b.SetFeeAmount(sdk.NewCoins(sdk.NewCoin(utils.BaseDenom, sdkmath.NewIntFromBigInt(fee.Add(fee, one)))))
 	})
-	env("env-fee-zero", func(b authtx.ExtensionOptionsTxBuilder, _ *evmtypes.MsgEthereumTx) { b.SetFeeAmount(sdk.Coins{}) })
+	if tx.GasPrice().Sign() != 0 { // with gas price 0 the empty fee IS the canonical fee of the envelope: not a mutant
+		env("env-fee-zero", func(b authtx.ExtensionOptionsTxBuilder, _ *evmtypes.MsgEthereumTx) { b.SetFeeAmount(sdk.Coins{}) })
+	}
 	env("env-gas+1", func(b authtx.ExtensionOptionsTxBuilder, _ *evmtypes.MsgEthereumTx) { b.SetGasLimit(tx.Gas() + 1) })
 	env("env-fee-payer", func(b authtx.ExtensionOptionsTxBuilder, _ *evmtypes.MsgEthereumTx) {
 		b.SetFeePayer(sdk.AccAddress(other.Bytes()))
@@ -903,6 +906,9 @@ type sgInput struct {
 	Seq0     []uint64 `json:"seq0,omitempty"`
 	Txs      []sgTx   `json:"txs,omitempty"`
 	Boundary int      `json:"boundary,omitempty"`
+	// ZeroFee (mutations): the chain admits transactions without a fee (fee market: no base fee, minimum gas price 0)
+	// and every transaction of the case offers none: no rule about signatures or sequences may lean on the fee
+	ZeroFee bool `json:"zero_fee,omitempty"`
 }
 
 // sgTx is one Cosmos transaction of a script.
@@ -1202,9 +1208,15 @@ func (w *sgWorld) runEthMutations(c *sgCase, e *Env, r *Rng, route string) {
 		baseFee = big.NewInt(0)
 	}
 	price := new(big.Int).Add(new(big.Int).Mul(baseFee, big.NewInt(2)), big.NewInt(int64(1+r.Intn(1000))))
+	if w.ZeroFee {
+		price = big.NewInt(0)
+	}
 	mk := func(nonce uint64, chain int64) sgEthFields {
 		f := sgEthFields{ChainID: big.NewInt(chain), Nonce: nonce, GasPrice: price, FeeCap: price, Tip: big.NewInt(int64(1 + r.Intn(100))), Gas: 400000 + uint64(r.Intn(1000)),
 			Value: big.NewInt(int64(r.Intn(sgTransferUnit)))}
+		if w.ZeroFee {
+			f.Tip = big.NewInt(0)
+		}
 		switch route {
 		case "eth-legacy":
 			f.Type = 0
@@ -1477,6 +1489,9 @@ func (w *sgWorld) runCosmosMutations(c *sgCase, e *Env, r *Rng, route string) {
 		baseFee = big.NewInt(0)
 	}
 	price := new(big.Int).Add(new(big.Int).Mul(baseFee, big.NewInt(2)), big.NewInt(int64(1+r.Intn(1000))))
+	if w.ZeroFee {
+		price = big.NewInt(0)
+	}
 	msgs := func() []sdk.Msg {
 		return []sdk.Msg{banktypes.NewMsgSend(a.Acc, b.Acc, sdk.NewCoins(sdk.NewCoin(utils.BaseDenom, sdkmath.NewInt(int64(1+r.Intn(sgTransferUnit))))))}
 	}
@@ -3305,6 +3320,16 @@ func sgRunCase(id string, in sgInput) Case {
 		} else {
 			c.tags["mode:DeliverTx"] = true
 		}
+		w.ZeroFee = false
+		if in.ZeroFee {
+			fp := e.App.FeeMarketKeeper.GetParams(e.Ctx)
+			fp.NoBaseFee = true
+			fp.MinGasPrice = sdkmath.LegacyZeroDec()
+			if err := e.App.FeeMarketKeeper.SetParams(e.Ctx, fp); err == nil {
+				w.ZeroFee = true
+				c.tags["fee-regime:zero-fee-admitted"] = true
+			}
+		}
 		if strings.HasPrefix(in.Route, "eth-") {
 			w.runEthMutations(c, e, r, in.Route)
 		} else {
@@ -3356,6 +3381,7 @@ func sigsDriver(cfg Config, out *Out) error {
 		default: // four in six: one signed transaction of one route and all its mutations
 			in.Kind = "mutations"
 			in.Route = sgRoutes[(i-(i+3)/6-(i+0)/6)%len(sgRoutes)]
+			in.ZeroFee = in.Seed%5 == 3
 			if i%12 == 4 { // ... of which one in eight gives way to a history with wrapped submissions
 				in.Kind, in.Route = "wrapped", ""
 			}
